@@ -31,7 +31,9 @@ pub open spec fn kv(t: &StoreTransaction) -> KV { rkv(&t.inner) }
 #[verifier::external_body] pub struct TransactionInfoBuilder { _x: u64 }
 #[verifier::external_body] pub struct Byte32 { _b: [u8; 32] }
 impl Clone for Byte32 { #[verifier::external_body] fn clone(&self) -> (r: Self) ensures r == *self { unimplemented!() } }
-pub mod packed { pub use super::{Byte32, TransactionKey, TransactionInfo, PUint64 as Uint64, PackedHeaderView as HeaderView, OutPoint, CellEntry, CellDataEntry, CellOutput, CellEntryBuilder, CellDataEntryBuilder}; }
+#[verifier::external_body] pub struct PackedBytes { _x: u64 }
+impl Clone for PackedBytes { #[verifier::external_body] fn clone(&self) -> (r: Self) ensures r == *self { unimplemented!() } }
+pub mod packed { pub use super::{PackedBytes as Bytes, Byte32, TransactionKey, TransactionInfo, PUint64 as Uint64, PackedHeaderView as HeaderView, OutPoint, CellEntry, CellDataEntry, CellOutput, CellEntryBuilder, CellDataEntryBuilder}; }
 pub uninterp spec fn b32(b: &Byte32) -> Seq<u8>;
 pub uninterp spec fn pu64_bytes(p: &PUint64) -> Seq<u8>;
 pub uninterp spec fn u64_le(n: u64) -> Seq<u8>;                       // little-endian 8 bytes
